@@ -15,12 +15,12 @@ M = 'src/mesh.py'
 # --------------------------------------------------------------------------
 # R-window (C19)
 # --------------------------------------------------------------------------
-def _ratio(test, syms):
+def _ratio(test, syms, name_hook=None):
     """`P >= Q` (or mirrored) with positive monomials -> (P/Q, strict)"""
     if not (isinstance(test, ast.Compare) and len(test.ops) == 1):
         return None
     op = test.ops[0]
-    L = Lifter(None, syms)
+    L = Lifter(None, syms, name_hook=name_hook)
     l, r = L.lift(test.left), L.lift(test.comparators[0])
     if isinstance(op, (ast.GtE, ast.Gt)):
         return sp.simplify(l / r), isinstance(op, ast.Gt)
@@ -199,6 +199,20 @@ def check_window(prog, report):
         if isinstance(s_, ast.Assign) and len(s_.targets) == 1 and \
                 isinstance(s_.targets[0], ast.Name):
             local[s_.targets[0].id] = subst(s_.value, local)
+    # names bound once in the function, outside the classification loop
+    outer_local = {}
+    cl_nodes = {id(x) for x in ast.walk(cloop)}
+    counts = {}
+    for n_ in ast.walk(fi.node):
+        if isinstance(n_, ast.Name) and isinstance(n_.ctx, ast.Store):
+            counts[n_.id] = counts.get(n_.id, 0) + 1
+    for n_ in ast.walk(fi.node):
+        if isinstance(n_, ast.Assign) and id(n_) not in cl_nodes and len(
+                n_.targets) == 1 and isinstance(
+                    n_.targets[0], ast.Name) and counts.get(
+                        n_.targets[0].id) == 1 and \
+                n_.targets[0].id not in local:
+            outer_local[n_.targets[0].id] = n_.value
     # walk the if/elif chain
     branches = []
     node = chain
@@ -227,7 +241,18 @@ def check_window(prog, report):
             raise AnalysisError('%s: unrecognised marking branch' %
                                 fi.where(node))
         lst = text(apps[0].func.value)
-        r = _ratio(subst(test, local), syms)
+        # a quantity that is neither the leaf's sizes nor K, sigma (a local
+        # computed from the mesh, say) enters as a symbol of its own: the
+        # condition then is a side of the window only if it cancels
+        foreign = {}
+
+        def hook(tx, foreign=foreign):
+            if tx in syms or tx == cvar or tx.startswith(cvar + '.'):
+                return None
+            return foreign.setdefault(
+                tx, sp.Symbol('q%d' % len(foreign), positive=True))
+        r = _ratio(subst(subst(test, local), outer_local), syms,
+                   name_hook=hook)
         if r is None:
             raise AnalysisError('%s: unrecognised marking condition `%s`' %
                                 (fi.where(node), text(test)))
